@@ -158,7 +158,10 @@ def _iter_json_lines(path):
             if line.startswith('"{'):
                 line = line.rstrip("\n")
                 try:
-                    yield json.loads(json.loads(line))
+                    if "\\\\" not in line:      # no escaped backslash: un-escaping the quotes is enough
+                        yield json.loads(line[1:-1].replace('\\"', '"'))
+                    else:
+                        yield json.loads(json.loads(line))
                 except Exception as exc:  # interleaved output would be a machinery failure
                     raise MachineryError("cannot parse edge line: %r (%s)" % (line[:200], exc))
 
